@@ -36,7 +36,7 @@ def showLog (l : List LogEv) : String :=
 def showOut : Out → String
   | .ok => "ok" | .none => "none" | .err => "err" | .bad => "bad-op" | .dead => "dead"
   | .bp => "bp" | .exit => "exit 0" | .sig s => "sig " ++ toString s ++ " main" | .done => "done"
-  | .panic => "panic" | .unmodelled => "unmodelled" | .outOfFuel => "out-of-fuel"
+  | .unmodelled => "unmodelled" | .outOfFuel => "out-of-fuel"
 
 def hookOf : Out → String
   | .bp => "b" | .exit => "e0" | .sig s => toString s | .done => "t" | _ => "-"
